@@ -19,6 +19,13 @@ CHECKS = {
              technique="Coq proof + extracted-model differential + byte-level oracle vs csproto.Marshal", design="4 C19", note=PROOF_NOTE + " The three runtimes' Marshal are oracles (section parameters of the model)."),
  "C20": dict(text="Theorems: ParseAnnotatedHex's model returns exactly the bytes denoted by the hex digits outside comments for every token layout (white space anywhere, comments, line breaks, digit case) and is characterised exactly by an independent one-pass reading (accepts iff every significant character is a hex digit, an even number per line); protodump's model prints, for every well-formed field tree laid out as -expand/-strings request, one record per field in wire order with the reference's number, wire type and value, recursing into exactly the requested paths, and never panics on any input. Correspondence: model vs the real function and the real binary (via -file, redirect and pipe), stdout parsed back into records.",
              technique="Coq proof + extracted-model differential against the function and the built binary", design="4 C20", note=PROOF_NOTE + " The harness's stdout parser and protowire are trusted for the record comparison."),
+
+ "C13": dict(text="Theorems over an executable model of lazyproto (definition validation and tag tables, the single decoding pass on the wire-decoder model, all 26 typed accessors, FieldData paths, NestedResult(s), Range, both entry points): for every well-formed message tree, every valid definition (any depth, negative tags) with one wire type per requested number, decoding succeeds and records for each requested tag exactly the occurrences a reference parse finds (wire type, value bytes, wire order); single-value accessors read the last occurrence as the textbook value of the Go type (mismatch / overflow errors otherwise), slice accessors all occurrences with packed runs expanded, nested paths the reference record of the sub-message, absent tags not-found, undeclared not-defined; for every byte string and every accessor program nothing panics. Correspondence on random trees x definitions x accessor programs x modes x entry points plus mutated/truncated/random bytes.",
+             technique="Coq proof (loop invariant vs reference record; bit-level zig-zag/two's-complement lemmas) + extracted-model differential + protowire oracle", design="4 C13", note=PROOF_NOTE + " protowire is the reference parser of the oracle. A 10-byte varint with more than 64 bits is read by csproto with the excess bits dropped; the reference rejects it: such element lists are outside the comparison."),
+ "C14": dict(text="Theorem (all histories, all sync.Pool choices, all max-buffer/filter/capacity outcomes): in the ownership-passing state machine of pooled results (Get = any pooled object or a fresh clone; decode appends into whatever the object holds and keeps stale wire types; NestedResult(s) register closers; Close truncates, closes closers, trunc, Put) no operation panics and every observation equals the pure function (C13 model) of the observed result's own input; pools only ever hold objects with no recorded data and no closers. The pinned trunc() defect (nil closers) is expressed and refuted in the same model. Correspondence: histories with several live results over inputs of differing shapes x {safe,fast} x max buffer {none,0,1,2,1000} x filter, model vs implementation vs fresh never-pooled decode.",
+             technique="Coq proof (refinement of the pool machine to a pool-free spec under an invariant) + history differential", design="4 C14", note=PROOF_NOTE + " sync.Pool's choice is not controllable in the implementation; the theorem shows observations do not depend on it. Usage precondition: a handle is closed at most once and not used afterwards; nested results are used through their root."),
+ "C15": dict(text="Theorem: for every schedule interleaving the API calls of any number of goroutines on one shared Decoder (each goroutine using its own result handles), every pool choice and capacity outcome, no call panics and each goroutine observes exactly what it would observe alone on its own inputs (corollary of C14's refinement + a projection lemma). One step = one API call; Get/Put atomic. Memory-level race freedom is not expressible in the model: supported by running 2..64 goroutines x GOMAXPROCS {1,2,16} x thousands of iterations in a -race binary, each read checked against the single-threaded value, and a logged prefix of each real schedule replayed on the model.",
+             technique="Coq proof (schedule independence) + race-detector run with per-goroutine value oracle", design="4 C15", note=PROOF_NOTE + " Assumes sync.Pool linearizability and sync/atomic. Data-race freedom below API-call granularity rests on the Go race detector run only (stated in evidence)."),
 }
 
 NOT_YET = {}
